@@ -340,7 +340,8 @@ def gen_atom(g: G, m):
     v = g.pick(LITS)
     if g.complex and g.chance(0.3):
         g.features.add("lit:complex")
-        return ["clit", v, g.pick(LITS)]
+        # purely imaginary literals (2j) as well as general ones
+        return ["clit", 0.0 if g.chance(0.35) else v, g.pick(LITS)]
     if g.chance(0.3):
         # a Python int as users write it (2*f, max_value(1, f), 2**f): a UFL IntValue, an integer literal in the generated code
         g.features.add("lit:int")
@@ -367,6 +368,10 @@ def gen_scalar(g: G, m, depth):
         g.features.add("op:" + kind)
         return [kind, a, b]
     if kind == "divsafe":
+        if g.complex and g.chance(0.35):
+            # division by a complex constant (f / 2j, f / (1.1-0.7j)); never zero: LITS has no zero
+            g.features.add("op:div-by-complex-literal")
+            return ["div_", a, ["clit", 0.0 if g.chance(0.5) else g.pick(LITS), g.pick(LITS)]]
         b = gen_scalar(g, m, depth - 1)
         g.features.add("op:div")
         return ["div_", a, ["add", ["lit", 2.0], _sq(g, b)]]
